@@ -56,21 +56,42 @@ type Req struct {
 	// TimeoutVia: "op" per-call opoptions.WithTimeoutOps (methods that take options), "channel"
 	// Channel.TimeoutOps set around the call.
 	TimeoutVia string `json:"timeout_via,omitempty"`
+	// Stall k > 0: the k-th transport write of this call (1 = frame, 2 = return, 3 = second return of
+	// a 1.1 message) stalls until another write has arrived or Session.StallMs have passed; the call
+	// runs with a 150 ms operation timeout (TimeoutVia).
+	Stall int `json:"stall,omitempty"`
+	// AfterStall: the harness waits until the stalled write has completed before this call.
+	AfterStall bool `json:"after_stall,omitempty"`
+	// UsePool: the call's options are Session.Pool[:PoolN], spread from a slice of the session's
+	// shared backing array (capacity > length). The other fields spell out what these options mean
+	// for this method, i.e. what the request must carry.
+	UsePool bool `json:"use_pool,omitempty"`
+	PoolN   int  `json:"pool_n,omitempty"`
+}
+
+// OptSpec is one operation option of a session's shared option array.
+type OptSpec struct {
+	K string `json:"k"` // filter | filter-type | defaults | confirmed | confirm-timeout | persist | persist-id
+	S string `json:"s,omitempty"`
+	U uint   `json:"u,omitempty"`
 }
 
 // Session is a case descriptor: one NETCONF session of N consecutive requests on one stream.
 type Session struct {
-	Kind    string `json:"kind"`    // grid | random | sweep | big | hazard | noanswer | caps (how it was generated)
+	Kind    string `json:"kind"`    // grid | random | sweep | big | hazard | noanswer | caps | stall | alias (how it was generated)
 	Version string `json:"version"` // 1.0 | 1.1
 	Via     string `json:"via"`     // caps: server offers only that version; preferred: server offers both, client option selects
 	Force   bool   `json:"force"`   // options.WithNetconfForceSelfClosingTags
 	Header  bool   `json:"header"`  // false: options.WithNetconfExcludeHeader
 	// Caps are further capabilities of the server hello, as written on the wire (XML-escaped or not);
 	// WD names the with-defaults variant among them (evidence only).
-	Caps []string   `json:"caps,omitempty"`
-	WD   string     `json:"wd,omitempty"`
-	Reqs []Req      `json:"reqs"`
-	Seg  devsim.Seg `json:"seg"`
+	Caps []string `json:"caps,omitempty"`
+	WD   string   `json:"wd,omitempty"`
+	Reqs []Req    `json:"reqs"`
+	// Pool is the shared option array of an "alias" session; StallMs the maximal stall of a "stall" session.
+	Pool    []OptSpec  `json:"pool,omitempty"`
+	StallMs int        `json:"stall_ms,omitempty"`
+	Seg     devsim.Seg `json:"seg"`
 	// Hazard names the rewrite hazard a "hazard" session's arguments carry (empty otherwise).
 	Hazard string `json:"hazard,omitempty"`
 }
